@@ -57,6 +57,16 @@ func lcCatalog() []lcDef {
 		{"http3", func(b int) *msg.NewProxy { // collides with http1 exactly on d2.test "/"
 			return &msg.NewProxy{ProxyName: "http3", ProxyType: "http", CustomDomains: []string{"d4.test", "d2.test"}, Locations: []string{"/"}, RouteByHTTPUser: ""}
 		}, []lcRes{r("h:d4.test|/|", "httproute:d4.test|/|"), r("h:d2.test|/|", "httproute:d2.test|/|"), r("name:http3", "name:http3")}},
+		// same domain and location as http1, told apart only by the routing user: releasing one leaves the others' routes alone
+		{"http4", func(b int) *msg.NewProxy {
+			return &msg.NewProxy{ProxyName: "http4", ProxyType: "http", CustomDomains: []string{"d1.test"}, Locations: []string{"/"}, RouteByHTTPUser: "alice"}
+		}, []lcRes{r("h:d1.test|/|alice", "httproute:d1.test|/|alice"), r("name:http4", "name:http4")}},
+		{"http5", func(b int) *msg.NewProxy {
+			return &msg.NewProxy{ProxyName: "http5", ProxyType: "http", CustomDomains: []string{"d1.test"}, Locations: []string{"/"}, RouteByHTTPUser: "bob"}
+		}, []lcRes{r("h:d1.test|/|bob", "httproute:d1.test|/|bob"), r("name:http5", "name:http5")}},
+		{"mux2", func(b int) *msg.NewProxy { // same domain as mux1, another routing user
+			return &msg.NewProxy{ProxyName: "mux2", ProxyType: "tcpmux", Multiplexer: "httpconnect", CustomDomains: []string{"m1.test"}, RouteByHTTPUser: "v"}
+		}, []lcRes{r("m:m1.test|v", "tcpmuxroute:m1.test||v"), r("name:mux2", "name:mux2")}},
 		{"https1", func(b int) *msg.NewProxy {
 			return &msg.NewProxy{ProxyName: "https1", ProxyType: "https", CustomDomains: []string{"s1.test", "s2.test"}}
 		}, []lcRes{r("s:s1.test", "httpsroute:s1.test||"), r("s:s2.test", "httpsroute:s2.test||"), r("name:https1", "name:https1")}},
